@@ -313,6 +313,11 @@ impl QueryRouter {
                         Err(_) => return None,
                     },
                 };
+                #[cfg(pgcat_verif)]
+                if value.eq_ignore_ascii_case("ANY") {
+                    self.active_shard =
+                        Some(crate::verif::choice::any_shard(self.pool_settings.shards));
+                }
             }
 
             Command::SetServerRole => {
